@@ -171,6 +171,52 @@ class Body:
                     st.append(s_)
         return seen
 
+    def _bool_assigns(self):
+        """block -> {local: value} for constant assignments to materialised bool locals"""
+        if getattr(self, "_ba", None) is not None:
+            return self._ba
+        mats = {}
+        for b in range(self.n):
+            mb = self.materialised_bool(b) if self.term(b)["t"] == "switch" else None
+            if mb:
+                mats[mb[0]] = mb[1]
+        ba = {}
+        for l, d in mats.items():
+            for v, blocks in d.items():
+                for b in blocks:
+                    ba.setdefault(b, {})[l] = v
+        self._ba = ba
+        self._mats = mats
+        return ba
+
+    def reachable_feasible(self, start, avoid=()):
+        """Like reachable_from, but a switch on a materialised bool only follows the edge that agrees with the value
+        assigned on the path taken (prunes the infeasible half of `matches!` / `||` joins)."""
+        ba = self._bool_assigns()
+        if not ba:
+            return self.reachable_from(start, avoid)
+        seen = set()
+        out = set()
+        st = [(start, frozenset())] if start not in avoid else []
+        while st:
+            b, known = st.pop()
+            if (b, known) in seen:
+                continue
+            seen.add((b, known))
+            out.add(b)
+            k = dict(known)
+            k.update(ba.get(b, {}))
+            mb = self.materialised_bool(b) if self.term(b)["t"] == "switch" else None
+            for (lab, tg) in self.edges(b):
+                if tg in avoid:
+                    continue
+                if mb is not None and mb[0] in k:
+                    takes_true = lab == "otherwise" or (lab != "otherwise" and lab[1] != 0)
+                    if takes_true != k[mb[0]]:
+                        continue
+                st.append((tg, frozenset(k.items())))
+        return out
+
     def dominators(self):
         """dom[b] = set of blocks dominating b (normal edges only, entry bb0)."""
         if self._dom is not None:
@@ -406,7 +452,39 @@ class Body:
         assert t["t"] == "switch"
         return self.resolve_operand(t["discr"])
 
-    def guards(self, site_bb):
+    def materialised_bool(self, bb):
+        """If block bb switches on a bool local that only ever holds constants assigned on the joining paths
+        (what `matches!`, `a || b` in a let, ... compile to) -- and that is not a drop flag (drop flags are
+        initialised in the entry block) -- return (local, {True: [def blocks], False: [def blocks]})."""
+        t = self.term(bb)
+        if t["t"] != "switch":
+            return None
+        op = t["discr"]
+        if op["o"] not in ("copy", "move") or op["place"]["proj"]:
+            return None
+        l = op["place"]["l"]
+        for _ in range(3):
+            ds = [d for d in self.defs().get(l, []) if not self.is_cleanup(d[0])]
+            if len(ds) == 1 and ds[0][2] == "rv" and ds[0][3]["r"] == "use" and ds[0][3]["op"]["o"] in ("copy", "move") and not ds[0][3]["op"]["place"]["proj"]:
+                l = ds[0][3]["op"]["place"]["l"]
+            else:
+                break
+        ds = [d for d in self.defs().get(l, []) if not self.is_cleanup(d[0])]
+        if len(ds) < 2 or self.locals[l]["ty"] != "bool":
+            return None
+        out = {True: [], False: []}
+        for (b, i, kind, payload) in ds:
+            if kind != "rv" or payload["r"] != "use" or payload["op"]["o"] != "const":
+                return None
+            v = payload["op"]["c"].get("v")
+            if not isinstance(v, bool):
+                return None
+            if b == 0:
+                return None  # drop flag
+            out[v].append(b)
+        return (l, out)
+
+    def guards(self, site_bb, _depth=0):
         """Branch conditions that hold on every path from entry to site_bb.
 
         Returns a list of (bb, cond_term, outcome) where outcome is
@@ -438,6 +516,20 @@ class Body:
             # all edges going to that single target
             tg = next(iter(tgts))
             labs = [l for l, x in self.edges(d) if x == tg]
+            mb = self.materialised_bool(d)
+            if mb is not None and _depth < 4:
+                # the branch only replays a condition decided on the way here: the guards are those of the
+                # (unique) block that assigned the value this edge needs
+                need = None
+                if labs == [("sw", 0)]:
+                    need = False
+                elif "otherwise" in labs and [l for l, x in self.edges(d) if x != tg] == [("sw", 0)]:
+                    need = True
+                if need is not None and len(mb[1][need]) == 1:
+                    for g in self.guards(mb[1][need][0], _depth + 1):
+                        if g not in out:
+                            out.append(g)
+                continue
             if "otherwise" in labs:
                 excluded = tuple(v for (l, x) in self.edges(d) if l != "otherwise" and x != tg for v in [l[1]])
                 out.append((d, cond, ("ne", excluded)))
